@@ -8,7 +8,7 @@ import FparserModel.Generated.SymGlueSites
 (`Fp.SymGlue`); `specRun` reads the same skeleton with a stack of *frames* (per open scoping
 unit: the lower-cased names recorded so far, wildcard flag, submodule flag).
 
-* (a) `use_entries_all_recorded`, `use_dtio_aborts` (+ witness)
+* (a) `use_entries_all_recorded`, `use_never_aborts`, `only_skips_non_names`, `use_dtio_regression_witness`
 * (b) `decl_entities_all_recorded`, `decl_derived_records_nothing`, `silent_records_nothing`
 * (c) `run_refines_spec`, `reference_intrinsic_iff`, `specResolve_intrinsic_iff`,
       `specResolve_syntaxError_iff`, `wildcard_does_not_shadow` (+ witness)
@@ -33,16 +33,16 @@ def abortOf {α} : Except Abort α → Option Abort
 
 /-! ## (a) USE statements -/
 
-/-- **use_entries_all_recorded** (C16).  In ANY state with a current scope `p`, a USE statement
-    whose only-list has no DTIO entry succeeds, leaves the scope, the children, the data
+/-- **use_entries_all_recorded** (C16).  In ANY state with a current scope `p`, EVERY USE
+    statement succeeds (no exception: since repo commit bf50e4e a DTIO generic spec in the
+    only-list is skipped like an operator entry), leaves the scope, the children, the data
     symbols and the log alone, and afterwards the table of `p` has a `ModuleUse` for the
     (lower-cased) module in which the lower-cased local name of EVERY `Name` and every
     `local => use` entry is a symbol — whatever `OPERATOR(..)`, `ASSIGNMENT(=)` or operator-rename
-    entries precede or follow it — and `table.lookup(local)` from `p` finds it.  Same for the
+    / DTIO (`READ(FORMATTED)` …) entries precede or follow it — and `table.lookup(local)` from `p` finds it.  Same for the
     entries of a rename-list; a statement without ONLY leaves a wildcard import. -/
 theorem use_entries_all_recorded (std : Std) (st : St) (p : Path) (t : Table) (mod : Str)
-    (tail : UseTail) (hc : st.tabs.cur = some p) (ht : st.tabs.tableAt p = some t)
-    (hnd : tailAborts tail = false) :
+    (tail : UseTail) (hc : st.tabs.cur = some p) (ht : st.tabs.tableAt p = some t) :
     ∃ st' t' m, execStmt std st (.use mod tail) = .ok st' ∧ st'.log = st.log
       ∧ st'.tabs.cur = some p ∧ st'.tabs.tableAt p = some t'
       ∧ t'.children = t.children ∧ t'.loc.syms = t.loc.syms
@@ -53,7 +53,12 @@ theorem use_entries_all_recorded (std : Std) (st : St) (p : Path) (t : Table) (m
             lower n ∈ m.symbols ∧ ∃ sym, st'.tabs.lookupAt p n = .ok sym)
       ∧ (∀ es, tail = .renames es → ∀ e ∈ es, ∀ n, e.localName = some n →
             lower n ∈ m.symbols ∧ ∃ sym, st'.tabs.lookupAt p n = .ok sym) := by
-  obtain ⟨only, ren, h1, h2, h3⟩ := use_args_ok tail hnd
+  obtain ⟨h2, h3⟩ := use_args_ok tail
+  have h1 : execStmt std st (.use mod tail)
+      = .ok { st with tabs := addUse st.tabs mod (useArgs tail).1 (useArgs tail).2 } := rfl
+  cases hu : useArgs tail with
+  | mk only ren =>
+  simp only [hu] at h1 h2 h3
   obtain ⟨m, hm1, hm2, hm3⟩ := addUse_records t.loc mod only ren
   have htab : (addUse st.tabs mod only ren).tableAt p
       = some (.mk (t.loc.addUseSymbols mod only ren) t.children) := by
@@ -76,7 +81,7 @@ theorem use_entries_all_recorded (std : Std) (st : St) (p : Path) (t : Table) (m
     | some sym => exact ⟨sym, rfl⟩
   refine ⟨{ st with tabs := addUse st.tabs mod only ren }, _, m, ?_, rfl, hcur, htab, rfl,
     addUse_syms _ _ _ _, hm1, ?_, ?_, ?_, ?_⟩
-  · simp only [execStmt, h1]
+  · exact h1
   · intro hw; exact hm3 (by rw [h3]; exact hw)
   · intro x hx; exact hm2 x (by rw [h2]; exact hx)
   · intro es hes e he n hn
@@ -88,27 +93,88 @@ theorem use_entries_all_recorded (std : Std) (st : St) (p : Path) (t : Table) (m
     have := rename_entry_local es e n he hn
     exact ⟨hm2 _ (by rw [h2]; exact this), hlook n this⟩
 
-/-- **the exception of (a)**: an only-list with a DTIO generic spec (`READ(FORMATTED)` …: an
-    instance of `Dtio_Generic_Spec`, which is not a `Generic_Spec`) makes `Use_Stmt.match`
-    raise `InternalError`, wherever the entry stands and whatever the state; nothing of the
-    statement is recorded (the run aborts). -/
-theorem use_dtio_aborts (std : Std) (st : St) (mod : Str) (es : List OEntry)
-    (h : es.any OEntry.isDtio = true) :
-    execStmt std st (.use mod (.only es)) = .error .internalError := by
-  simp only [execStmt, use_args_abort (.only es) (by simpa [tailAborts] using h)]
+/-- **use_never_aborts**: `Use_Stmt.match` has no failing branch left for the children the
+    parser can build (`only_loop_branches_as_assumed`): a USE statement never aborts the run,
+    changes nothing but the tables, and with no current scope changes nothing at all. -/
+theorem use_never_aborts (std : Std) (st : St) (mod : Str) (tail : UseTail) :
+    ∃ st', execStmt std st (.use mod tail) = .ok st' ∧ st'.log = st.log
+      ∧ (st.tabs.cur = none → st'.tabs = st.tabs) := by
+  refine ⟨_, rfl, rfl, ?_⟩
+  intro hc
+  simp only [addUse, onCurrent, hc]
 
-/-- witness (replayed on the real parser by `fv.cosim_symglue`, directed case "DTIO entry in
-    an only-list": `module m / use b, only: x, read(formatted), y / end module m` raises
-    `InternalError`), and what the natural statement would give without the DTIO entry -/
-theorem use_dtio_witness :
+/-- **only_skips_non_names**: the only-list loop keeps exactly the entries that have a local name
+    (`Name`, `local => use`), in order; `OPERATOR(..)`, `ASSIGNMENT(=)`, operator renames and DTIO
+    generic specs are all skipped, wherever they stand: the arguments of `add_use_symbols` are
+    those of the list without them. -/
+theorem only_skips_non_names (es : List OEntry) :
+    onlyLoop es = onlyLoop (es.filter fun e => e.localName.isSome)
+    ∧ (onlyLoop es).map (fun e => e.1) = es.filterMap OEntry.localName := by
+  refine ⟨?_, onlyLoop_names es⟩
+  induction es with
+  | nil => rfl
+  | cons e r ih =>
+    rw [List.filter_cons]
+    cases e with
+    | name n =>
+      simp only [show (OEntry.name n).localName.isSome = true from rfl, ↓reduceIte, onlyLoop]
+      rw [← ih]
+    | generic g =>
+      simp only [show (OEntry.generic g).localName.isSome = false from rfl, Bool.false_eq_true, ↓reduceIte,
+        onlyLoop]
+      exact ih
+    | dtio g =>
+      simp only [show (OEntry.dtio g).localName.isSome = false from rfl, Bool.false_eq_true, ↓reduceIte,
+        onlyLoop]
+      exact ih
+    | ren re =>
+      cases re with
+      | sym lo u =>
+        simp only [show (OEntry.ren (.sym lo u)).localName.isSome = true from rfl, ↓reduceIte, onlyLoop]
+        rw [← ih]
+      | op lo u =>
+        simp only [show (OEntry.ren (.op lo u)).localName.isSome = false from rfl, Bool.false_eq_true,
+          ↓reduceIte, onlyLoop]
+        exact ih
+
+/-- a DTIO entry anywhere in the list has the same effect as an `OPERATOR(..)` entry there, namely none -/
+theorem dtio_like_operator (pre post : List OEntry) (g h : Str) :
+    onlyLoop (pre ++ .dtio g :: post) = onlyLoop (pre ++ post)
+    ∧ onlyLoop (pre ++ .generic h :: post) = onlyLoop (pre ++ post) := by
+  constructor
+  · rw [(only_skips_non_names (pre ++ .dtio g :: post)).1, (only_skips_non_names (pre ++ post)).1,
+      List.filter_append, List.filter_append, List.filter_cons]
+    simp only [show (OEntry.dtio g).localName.isSome = false from rfl, Bool.false_eq_true, ↓reduceIte]
+  · rw [(only_skips_non_names (pre ++ .generic h :: post)).1, (only_skips_non_names (pre ++ post)).1,
+      List.filter_append, List.filter_append, List.filter_cons]
+    simp only [show (OEntry.generic h).localName.isSome = false from rfl, Bool.false_eq_true, ↓reduceIte]
+
+/-- regression witness for the former defect F-symglue-1 (repaired in /repo by commit bf50e4e):
+    `module m / use b, only: x, read(formatted), y / end module m` used to raise `InternalError`;
+    now the parse succeeds and records exactly what the same list with `operator(+)` in place of
+    the DTIO entry records (replayed on the real parser by `fv.cosim_symglue`, directed case
+    "DTIO entry in an only-list"). -/
+theorem use_dtio_regression_witness :
     abortOf (populate .f2003 (.scope .module "m".toList
         (.stmt (.use "b".toList (.only [.name "x".toList, .dtio "read(formatted)".toList, .name "y".toList])) .nil) .nil))
-      = some .internalError
+      = none
+    ∧ ((populate .f2003 (.scope .module "m".toList
+        (.stmt (.use "b".toList (.only [.name "x".toList, .dtio "read(formatted)".toList, .name "y".toList])) .nil) .nil)).toOption.bind
+          fun tb => (tb.tableAt ("m".toList, [])).bind fun t =>
+            (dGet t.loc.mods "b".toList).map fun m => (m.symbols, m.onlySet, m.wildcard))
+      = some (["x".toList, "y".toList], some ["x".toList, "y".toList], false)
     ∧ ((populate .f2003 (.scope .module "m".toList
         (.stmt (.use "b".toList (.only [.name "x".toList, .generic "operator(+)".toList, .name "y".toList])) .nil) .nil)).toOption.bind
-          fun tb => (tb.tableAt ("m".toList, [])).bind fun t => (dGet t.loc.mods "b".toList).map (·.symbols))
-      = some ["x".toList, "y".toList] := by
-  decide +kernel
+          fun tb => (tb.tableAt ("m".toList, [])).bind fun t =>
+            (dGet t.loc.mods "b".toList).map fun m => (m.symbols, m.onlySet, m.wildcard))
+      = some (["x".toList, "y".toList], some ["x".toList, "y".toList], false)
+    -- an only-list of DTIO entries alone: an empty, non-wildcard module use
+    ∧ ((populate .f2008 (.scope .module "m".toList
+        (.stmt (.use "b".toList (.only [.dtio "write(unformatted)".toList])) .nil) .nil)).toOption.bind
+          fun tb => (tb.tableAt ("m".toList, [])).bind fun t =>
+            (dGet t.loc.mods "b".toList).map fun m => (m.symbols, m.onlySet, m.wildcard))
+      = some ([], some [], false) := by
+  refine ⟨by decide +kernel, by decide +kernel, by decide +kernel, by decide +kernel⟩
 
 /-! ## (b) type declarations -/
 
@@ -218,11 +284,8 @@ where
       σ'.stack.length = σ.stack.length := by
     cases s with
     | use mod tail =>
-      simp only [specStmt] at h
-      by_cases ha : tailAborts tail = true
-      · simp [ha] at h
-      · simp only [ha, Bool.false_eq_true, ↓reduceIte, Except.ok.injEq] at h
-        subst h; exact modHead_length _ _
+      simp only [specStmt, Except.ok.injEq] at h
+      subst h; exact modHead_length _ _
     | decl ts ents =>
       simp only [specStmt] at h
       cases h1 : specInner std σ ents with
@@ -535,12 +598,20 @@ theorem scoping_as_assumed :
     scoping2003 = assumedScoping .f2003 ∧ scoping2008 = assumedScoping .f2008 := by decide
 
 open Generated.SymGlueSites in
-/-- the classification `OEntry` is exhaustive, and the DTIO alternative is reachable and falls
-    into the `else: raise InternalError` branch -/
+/-- the classification `OEntry` is exhaustive: an `Only` is a `Generic_Spec`, an `Only_Use_Name`
+    (→ `Name`) or a `Rename`; a `Generic_Spec` is itself, a `Generic_Name` (→ `Name`) or a
+    `Dtio_Generic_Spec`, which is (still) not a Python subclass of `Generic_Spec` -/
 theorem only_alternatives_as_assumed :
     onlyAlternatives = assumedOnlyAlternatives
     ∧ genericSpecAlternatives = ["Generic_Name", "Dtio_Generic_Spec"]
     ∧ dtioIsGenericSpec = false := by decide
+
+open Generated.SymGlueSites in
+/-- the `if / elif / else` chain of the only-list loop is the one `onlyLoop` mirrors: `Name` and
+    `Rename` append, `Generic_Spec` AND `Dtio_Generic_Spec` pass (repo commit bf50e4e), the final
+    `else` raises — and is unreachable by `only_alternatives_as_assumed`.  A change of a branch
+    (class tested or action) breaks this proof. -/
+theorem only_loop_branches_as_assumed : onlyLoopBranches = assumedOnlyLoopBranches := by decide
 
 open Generated.SymGlueSites in
 theorem primary_alternatives_as_assumed : primaryAlternatives = assumedPrimaryAlternatives := by decide
@@ -565,10 +636,9 @@ example :
     let st : St := { tabs := ({} : Tables).enterScope "m".toList }
     st.tabs.cur = some ("m".toList, []) ∧ (st.tabs.tableAt ("m".toList, [])).isSome = true
     ∧ ((st.tabs.tableAt ("m".toList, [])).map (·.loc.checking)) = some false
-    ∧ tailAborts (.only [.generic "operator(+)".toList, .name "x".toList, .ren (.op "p".toList "q".toList),
-                         .ren (.sym "Sin".toList "z".toList), .generic "assignment(=)".toList]) = false
     ∧ useLocals (.only [.generic "operator(+)".toList, .name "x".toList, .ren (.op "p".toList "q".toList),
-                        .ren (.sym "Sin".toList "z".toList), .generic "assignment(=)".toList])
+                        .dtio "read(formatted)".toList, .ren (.sym "Sin".toList "z".toList),
+                        .generic "assignment(=)".toList])
         = ["x".toList, "sin".toList]
     ∧ (logInner .f2003 st [⟨"w".toList, none⟩, ⟨"v".toList, none⟩]).toOption.map (·.log) = some [] := by
   decide +kernel
